@@ -131,7 +131,7 @@ pub struct Entropy {
     pub mode: String,
 }
 
-pub const WORKER_CHOICES: [usize; 6] = [1, 2, 3, 4, 8, 16];
+pub const WORKER_CHOICES: [usize; 9] = [1, 2, 3, 4, 5, 6, 7, 8, 16];
 
 impl Sched {
     pub fn draw(rng: &mut Rng) -> Sched {
